@@ -75,6 +75,11 @@ CLAIMED = {
             "that ground-truth counts add up, that frame order does not matter, and - relationally - that a call made after "
             "any of the explored prefixes returns exactly what it returns on a fresh manager, with the caller's list and the "
             "dataset unmodified."),
+    "C19": ("4 C19", "Partly solver-decided: get_object_status / GroundTruthStatus tallies and PerceptionAnalyzer3D.format2dict rows are "
+            "executed symbolically on evaluated frames with symbolic positions (ego and map frame) and decided by z3 on every "
+            "path. The pandas table algebra (add, get_num_*, calculate_error, confusion matrix) cannot carry symbolic values; it "
+            "is executed on the real code at the solver-generated witness of every explored path (auxiliary, not a for-all "
+            "claim) - stated in the evidence."),
 }
 NA = {
     "C16": "dataset loading goes through the nuScenes devkit and file I/O; a symbolic stand-in for the devkit would be the "
